@@ -10,6 +10,7 @@ mod c03;
 mod c04;
 mod c05;
 mod c06;
+mod c07;
 
 use common::*;
 
@@ -34,6 +35,7 @@ fn main() {
     "C04" => c04::run(&ctx),
     "C05" => c05::run(&ctx),
     "C06" => c06::run(&ctx),
+    "C07" => c07::run(&ctx),
     _ => {
       eprintln!("unknown property {}", prop);
       std::process::exit(2);
